@@ -32,11 +32,45 @@ ASSUMPTIONS = ['no_duplicates on boolean and date fields: only the sound '
 C07_KINDS = [k for k in F.ALL_KINDS if k not in F.TZ_KINDS]
 
 
+@st.composite
+def many_strings(draw):
+    """A SQLite table with a text column of 21-26 distinct values (more
+    than the category limit) whose shortest and longest values hold a NUL
+    character (written U+0001 in the case, see nul_form)."""
+    k = draw(st.integers(21, 26))
+    body = ['v%02d-' % i for i in range(k - 2)]
+    cells = body + ['q\x01', 'long\x01' + 'x' * draw(st.integers(3, 9))]
+    cells = list(draw(st.permutations(cells)))
+    if draw(st.booleans()):
+        cells.append(None)
+    return {'source': 'sqlite', 'nul': True,
+            'frame': {'n': len(cells), 'cols': [
+                {'name': 's', 'kind': 'ostr', 'cells': cells},
+                {'name': 'i', 'kind': 'int64',
+                 'cells': list(range(len(cells)))}]}}
+
+
+def nul_form(desc):
+    """The table as materialised in SQLite when the case says 'nul':
+    U+0001 stands for U+0000 (which pandas' object hash table cannot carry,
+    so the frame generator never emits it)."""
+    import copy
+    d = copy.deepcopy(desc)
+    for c in d['cols']:
+        if c['kind'] == 'ostr':
+            c['cells'] = [v.replace('\x01', '\x00') if isinstance(v, str)
+                          else v for v in c['cells']]
+    return d
+
+
 def strategy(tier):
-    return st.fixed_dictionaries({
+    usual = st.fixed_dictionaries({
         'source': st.sampled_from(['df', 'df', 'df', 'sqlite']),
         'frame': F.frame_strategy(kinds=C07_KINDS, max_cols=3),
-    }).map(adapt)
+        'nul': st.booleans(),
+    })
+    return st.integers(0, 19).flatmap(
+        lambda k: many_strings() if k == 0 else usual).map(adapt)
 
 
 def adapt(case):
@@ -109,6 +143,11 @@ def run(case, ctx):
     out = Outcome()
     desc = case['frame']
     source = case['source']
+    if source == 'sqlite' and case.get('nul'):
+        desc = nul_form(desc)
+        if any(isinstance(v, str) and '\x00' in v for c in desc['cols']
+               for v in c['cells']):
+            out.label('sqlite:text-with-NUL')
     out.label('source:' + source)
     if source == 'df':
         from tdda.constraints import discover_df
